@@ -73,6 +73,8 @@ type DaemonScenario struct {
 	DKGOnly    bool          `json:"dkg_only,omitempty"`
 	Crash      *CrashPlan    `json:"crash,omitempty"`
 	DKGFault   *DKGFault     `json:"dkg_fault,omitempty"`
+	Follow     *FollowPlan   `json:"follow,omitempty"`
+	Check      *CheckPlan    `json:"check,omitempty"`
 	Mode       string        `json:"mode,omitempty"` // engine sub-mode chosen by the generator (fuzz, secrets, ...)
 }
 
@@ -105,6 +107,16 @@ type dNode struct {
 	clients  []*SimClient
 	dkgStore dkg.Store
 	gone     chan struct{} // closed when this incarnation crashes
+	// C10 through the daemon
+	chainBase     chain.Store
+	following     bool
+	repairing     bool
+	repairPuts    []uint64
+	repairUpTo    uint64
+	lastFollowPut uint64
+	followCancel  context.CancelFunc
+	followErr     error
+	followEnded   bool
 }
 
 func (n *dNode) bumpRoute() {
